@@ -94,6 +94,8 @@ def translate_c_to_cirq(source_circuit, noise_model=None, save_measurements=Fals
 
     # Maps the gate information properly. Different for each backend (order, values)
     for gate in source_circuit._gates:
+        # Noise is attached to the name the user gave the gate (a multi-controlled CNOT is renamed below)
+        gate_name = gate.name
         if gate.control is not None:
             num_controls = len(gate.control)
             control_list = [qubit_list[c] for c in gate.control]
@@ -136,8 +138,8 @@ def translate_c_to_cirq(source_circuit, noise_model=None, save_measurements=Fals
             raise ValueError(f"Gate '{gate.name}' not supported on backend cirq")
 
         # Add noisy gates
-        if noise_model and (gate.name in noise_model.noisy_gates):
-            for nt, np in noise_model._quantum_errors[gate.name]:
+        if noise_model and (gate_name in noise_model.noisy_gates):
+            for nt, np in noise_model._quantum_errors[gate_name]:
                 if nt == 'pauli':
                     # Define pauli gate in cirq language
                     depo = cirq.asymmetric_depolarize(np[0], np[1], np[2])
